@@ -9,7 +9,8 @@ import vlib
 
 def sched_sig(o):
     s = o["sched"]
-    return "policy=%s auth=%s ack=%s info=%s lat=%s" % (s.get("policy"), s.get("auth"), s.get("ackAt"), s.get("infoAt"), s.get("lat"))
+    return "policy=%s auth=%s ack=%s info=%s lat=%s%s" % (s.get("policy"), s.get("auth"), s.get("ackAt"), s.get("infoAt"), s.get("lat"),
+                                                         " write-stall" if o.get("stalled") else "")
 
 
 def timeline(obs):
@@ -34,7 +35,14 @@ def run_c07(prop, tier):
     scheds = [json.loads(k) for k in by_sched]
     inp = os.path.join(wd, "schedules.ndjson")
     outp = os.path.join(wd, "observed.ndjson")
-    vlib.write_ndjson(inp, [{"sched": s} for s in scheds])
+    recs = [{"sched": s} for s in scheds]
+    # the same timer clauses under partial I/O: the Keep Alive of 16 s is accepted k bytes at a time and is still unfinished when
+    # discovery completes at 17 s (the raced keep_alive() future is dropped in mid-write); routing then outlasts the next deadline
+    for pol in ("never", "wrong", "late", "prompt", "slow"):
+        for k in (1, 3, 9):
+            for lat in ([16, 40, 2], [16, 2, 40]):
+                recs.append({"sched": {"auth": 0, "ackAt": 1, "infoAt": 1, "lat": lat, "policy": pol}, "wstall": {"at": 15, "k": k, "release": 19}})
+    vlib.write_ndjson(inp, recs)
     vlib.run_bin(hx, ["conn-timed", "--in", inp, "--out", outp, "--seed", str(seed), "--threads", "12"], timeout=1800)
     observed = vlib.read_ndjson(outp)
     tr = vlib.run_tlc("Trace_ConnTimed", "Trace_ConnTimed.cfg", wd, workers=1, timeout=1800, markers=("FAIL", "NOTCONSUMED"),
@@ -48,9 +56,12 @@ def run_c07(prop, tier):
         o = observed[f["line"] - 1]
         clauses = sorted(f["clauses"])
         rep.violation("%s %s [%s]" % (prop, "+".join(clauses), sched_sig(o)),
-                      {"failing_clauses": clauses, "schedule": o["sched"], "observed": o, "model_timelines": [b["tl"] for b in by_sched[json.dumps(o["sched"], sort_keys=True)]], "seed": seed})
+                      {"failing_clauses": clauses, "schedule": o["sched"], "write_stall": o.get("wstall"), "observed": o,
+                       "model_timelines": [b["tl"] for b in by_sched.get(json.dumps(o["sched"], sort_keys=True), [])], "seed": seed})
     drift = 0
     for o in observed:
+        if o.get("stalled"):
+            continue
         allowed = [([(x["t"], x["k"]) for x in b["tl"]], b["result"]) for b in by_sched[json.dumps(o["sched"], sort_keys=True)]]
         if (timeline(o["obs"]), o["result"]) not in allowed:
             drift += 1
